@@ -225,13 +225,16 @@ def guard_auth(ctx, facts):
         ctx.ob("GUARD-auth", f"inner-call#{n}", vs == frozenset([1]), "inner service is called only when an identity is present" if vs == frozenset([1]) else "inner service can be called without a ClientIdentity extension (None edge reaches it)", site_of(b, bb))
     # the None edge answers 401
     unauth_blocks = []
-    for bb, idx, s in b.iter_assigns():
-        r = s["r"]
-        if r["k"] == "agg":
-            for o in r["ops"]:
-                k = o.get("k")
-                if k and k.get("ty") == "hyper::StatusCode":
-                    unauth_blocks.append((bb, k.get("def")))
+    # (the response may be built by a small helper of the same crate that call() invokes: one level is followed)
+    helpers = [(cb, facts.bodies[fn]) for cb, t in b.calls() for fn in [F.callee(t)[0] or ""] if fn in facts.bodies and fn.startswith("net::") and len(facts.bodies[fn].blocks) <= 12]
+    for at, hb in [(None, b)] + helpers:
+        for bb, idx, s in hb.iter_assigns():
+            r = s["r"]
+            if r["k"] == "agg":
+                for o in r["ops"]:
+                    k = o.get("k")
+                    if k and k.get("ty") == "hyper::StatusCode":
+                        unauth_blocks.append((bb if at is None else at, k.get("def")))     # judged where call() builds / requests it
     ok401 = bool(unauth_blocks) and all(d == "hyper::StatusCode::UNAUTHORIZED" for _, d in unauth_blocks)
     ctx.ob("GUARD-auth", "status-401", ok401, "rejection status is StatusCode::UNAUTHORIZED" if ok401 else f"rejection status is {[d for _, d in unauth_blocks]}", site_of(b))
     for bb, d in unauth_blocks:
@@ -491,6 +494,19 @@ def tls_arms(ctx, facts):
             for bb2, idx, s in b.iter_assigns():
                 r = s["r"]
                 if r["k"] == "agg" and r["ak"] == "closure" and r.get("def") == cb.path:
+                    if not flow.dominates(dom, false_bb, bb2):
+                        # a closure made before the branch and handed out later: judged at the calls that receive it
+                        old_cd = flow.CLOSURE_DEFS
+                        flow.CLOSURE_DEFS = True
+                        try:
+                            uses = [ub for ub, ut in b.calls() if any((lambda e: e[0] == "agg" and isinstance(e[1], tuple) and e[1][:2] == ("closure", cb.path))(flow.expr_of(b, a, max_depth=6)) for a in ut["args"])]
+                        finally:
+                            flow.CLOSURE_DEFS = old_cd
+                        if uses:
+                            for ub in uses:
+                                ncert += 1
+                                ctx.ob("ARM-tls", f"cert-acceptor#{ncert}", flow.dominates(dom, false_bb, ub), "certificate acceptor only when TLS is enabled", site_of(b, ub))
+                            continue
                     ncert += 1
                     ok = flow.dominates(dom, false_bb, bb2)
                     ctx.ob("ARM-tls", f"cert-acceptor#{ncert}", ok, "certificate acceptor only when TLS is enabled", site_of(b, bb2))
